@@ -230,3 +230,24 @@ func HarnessC19Cursor() {
 	}
 	vCover("checked")
 }
+
+var c19Splices = [][2]string{
+	{"{{--", "--}}x{{ 1 }}"},
+	{"a{{--", "--}}\nb"},
+	{"@if(x)a@else", "@end"},
+	{"@each(v in a)@break", "@end"},
+	{"@each(v in a)@continue", "x@end"},
+	{"{{ \"", "\" }}y"},
+	{"{{ 1 }}", "@if(x)z@end"},
+}
+
+// HarnessC19Splice: a hole of K symbolic bytes between concrete construct halves (inside a comment, right after a
+// directive keyword that has a longer spelling, inside a string, between constructs).
+func HarnessC19Splice() {
+	sp := c19Splices[vChoice("splice", len(c19Splices))]
+	src := sp[0] + symSource(vParam("K")) + sp[1]
+	toks := lexAll(src)
+	vCover("lexed")
+	checkTokenGeometry(src, toks)
+	vCover("checked")
+}
